@@ -46,7 +46,7 @@ T_Refused == /\ Ev("refused") /\ refusedOK' = E.timely
 
 JudgeRound(e) ==
     LET A == rd.attempts
-        hasPerm == \E i \in 1..Len(A) : A[i] \in {"auth", "authtext"}
+        hasPerm == \E i \in 1..Len(A) : A[i] \in {"auth", "authtext", "tlsalert"}
         wantUps == IF hasPerm \/ e.refusedfirst THEN 0 ELSE 1
         wantAcc == Cnt(A, LAMBDA x : x # "refuse")
         d == [round |-> rd, accepted |-> accepts, sessions |-> ups, how |-> kinds, posts |-> posts, handled |-> hdls, clientsends |-> sends]
